@@ -67,7 +67,7 @@ def stack(arrays, axis=0, compressed_axes=None):
         raise ValueError("all input arrays must have the same shape")
     if compressed_axes is None:
         compressed_axes = (axis,)
-    if arrays[0].ndim == 1:
+    if arrays[0].ndim <= 1:
         from .._coo.common import stack as coo_stack
 
         arrays = [arr.tocoo() for arr in arrays]
